@@ -33,10 +33,14 @@ func (r *recorder) EndArray()             { r.evs = append(r.evs, "EvEndArr") }
 func (r *recorder) NameField(name string) { r.evs = append(r.evs, "EvName "+coqBytes([]byte(name))) }
 func (r *recorder) Int64(v int64)         { r.evs = append(r.evs, "EvInt "+coqZ(v)) }
 func (r *recorder) Uint64(v uint64)       { r.evs = append(r.evs, fmt.Sprintf("EvUint %d", v)) }
-func (r *recorder) Float64(v float64)     { r.evs = append(r.evs, fmt.Sprintf("EvF64 %d", math.Float64bits(v))) }
-func (r *recorder) Float32(v float32)     { r.evs = append(r.evs, fmt.Sprintf("EvF32 %d", math.Float32bits(v))) }
-func (r *recorder) String(v string)       { r.evs = append(r.evs, "EvStr "+coqBytes([]byte(v))) }
-func (r *recorder) Bool(v bool)           { r.evs = append(r.evs, fmt.Sprintf("EvBool %v", v)) }
+func (r *recorder) Float64(v float64) {
+	r.evs = append(r.evs, fmt.Sprintf("EvF64 %d", math.Float64bits(v)))
+}
+func (r *recorder) Float32(v float32) {
+	r.evs = append(r.evs, fmt.Sprintf("EvF32 %d", math.Float32bits(v)))
+}
+func (r *recorder) String(v string) { r.evs = append(r.evs, "EvStr "+coqBytes([]byte(v))) }
+func (r *recorder) Bool(v bool)     { r.evs = append(r.evs, fmt.Sprintf("EvBool %v", v)) }
 func (r *recorder) Time(t time.Time) {
 	r.evs = append(r.evs, fmt.Sprintf("EvTime %s %s", coqZ(t.Unix()), coqZ(int64(t.Nanosecond()))))
 }
